@@ -13,6 +13,7 @@ import (
 	"io"
 	"math/rand"
 	"net"
+	"net/url"
 	"sync"
 	"time"
 
@@ -86,7 +87,7 @@ func NewWorld(rng *rand.Rand) *World {
 // Reply is one scripted answer to get-entries: N entries (clipped to what was asked), or an error class.
 type Reply struct {
 	N   int
-	Err string // "", "429", "5xx", "net", "unavail"
+	Err string // "", "429", "5xx", "net", "unavail", "deadline", "canceled"
 }
 
 // STHReply is one scripted answer to get-sth.
@@ -105,6 +106,12 @@ func errorOf(kind string) error {
 		return &net.OpError{Op: "read", Net: "tcp", Err: errors.New("connection reset by peer")}
 	case "unavail":
 		return status.Error(codes.Unavailable, "backend unavailable") // the class backoff.Retry pauses on
+	case "deadline":
+		// the request timed out on its own (http.Client.Timeout / a per-request deadline); the run's context is alive
+		return &url.Error{Op: "Get", URL: "fake://c16/ct/v1/get-entries", Err: context.DeadlineExceeded}
+	case "canceled":
+		// the transport gave the request up (e.g. a per-request context of the client); the run's context is alive
+		return fmt.Errorf("get-entries: request abandoned by the transport: %w", context.Canceled)
 	}
 	panic("unknown error kind " + kind)
 }
